@@ -184,13 +184,13 @@ func twoClauseGraphs() []map[string][]*triple.Triple {
 	gs := [][]*triple.Triple{
 		{},
 		{T(a, p, model.ON(b))},
-		{T(a, p, model.ON(b)), T(b, p, model.ON(c)), T(c, p, model.ON(a))},                                                                                    // cycle
-		{T(a, p, model.ON(b)), T(a, p1, model.ON(b)), T(a, p2, model.ON(b)), T(b, p1, model.ON(c)), T(a, bqlm.QT2, model.ON(b)), T(b, bqlm.QT2, model.ON(c))}, // same id in three kinds, other id temporal
-		{T(a, p, model.OL(bqlm.LInt)), T(a, q, model.OL(bqlm.LInt)), T(c, p, model.OL(bqlm.LText))},                                                           // literals shared as objects
-		{T(a, q, model.OP(p1)), T(a, p1, model.ON(b)), T(c, q, model.OP(p)), T(a, p, model.ON(c))},                                                            // predicate-valued objects equal to real predicates
-		{T(a, p, model.ON(a)), T(c, p, model.ON(c)), T(a, p1, model.ON(c))},                                                                                   // self loops
-		{T(a, p, model.ON(b)), T(a, p, model.OL(bqlm.LInt)), T(a, p, model.OP(p1)), T(b, p1, model.OP(p2))},                                                   // mixed object kinds in one column
-		{T(a, p1, model.OP(p1)), T(c, p2, model.OP(p2)), T(a, p2, model.OP(p1))},                                                                              // anchors equal across P and O
+		{T(a, p, model.ON(b)), T(b, p, model.ON(c)), T(c, p, model.ON(a))},                                                                                           // cycle
+		{T(a, p, model.ON(b)), T(a, p1, model.ON(b)), T(a, p2, model.ON(b)), T(b, bqlm.PT1Z, model.ON(c)), T(a, bqlm.QT2, model.ON(b)), T(b, bqlm.QT2, model.ON(c))}, // same id in three kinds, other id temporal
+		{T(a, p, model.OL(bqlm.LInt)), T(a, q, model.OL(bqlm.LInt)), T(c, p, model.OL(bqlm.LText))},                                                                  // literals shared as objects
+		{T(a, q, model.OP(bqlm.PT1Z)), T(a, p1, model.ON(b)), T(c, q, model.OP(p)), T(a, p, model.ON(c))},                                                            // predicate-valued objects equal to real predicates
+		{T(a, p, model.ON(a)), T(c, p, model.ON(c)), T(a, p1, model.ON(c))},                                                                                          // self loops
+		{T(a, p, model.ON(b)), T(a, p, model.OL(bqlm.LInt)), T(a, p, model.OP(p1)), T(b, p1, model.OP(p2))},                                                          // mixed object kinds in one column
+		{T(a, p1, model.OP(p1)), T(c, p2, model.OP(p2)), T(a, p2, model.OP(p1))},                                                                                     // anchors equal across P and O
 		bqlm.Universe8(),
 	}
 	var out []map[string][]*triple.Triple
@@ -281,7 +281,6 @@ func runTwoClause(r *common.Run, st *stats) {
 	r.Set("two_clause_shapes", int(shapes))
 	r.Set("two_clause_graphs", len(graphs))
 }
-
 
 // ---- three-clause exploration ---------------------------------------------------
 
@@ -565,6 +564,6 @@ func main() {
 	r.Set("rule", "every (query shape, graph content) pair is one evaluation; non-trivial = accepted by the parser and the reference result has at least one row and fewer rows than the full product")
 	r.Sample(map[string]interface{}{"statement": oneClauseQueries(false)[1234].Render(), "data": "subset mask of bqlm.Universe6"})
 	r.Assume("reference evaluator bqlm.Solutions: nested-loop matching with structural value identity, one row per distinct assignment of all pattern bindings")
-	r.Assume("time-valued bindings are joined as instants; all data anchors are in UTC")
+	r.Assume("time-valued bindings and predicates are joined as instants: two designed graphs store one instant in two zones")
 	r.Finish()
 }
